@@ -44,6 +44,10 @@ def run(ck: Checker):
     check_id_freshness(ck, 'C02-1')
     check_side_queues(ck, 'C02-2')
     check_ensemble(ck, 'C02-5')
+    ck.rule('C02-7', 'routing threads stay alive: a compound servlet hands a value to a member stage or to the user\'s switch() only when it is proven not to be an exception value — switch() raising on one would end the routing thread and leave every later request unanswered (GUARD)', minimum=3)
+    from .c04 import check_routing_sinks
+
+    check_routing_sinks(ck, 'C02-7')
 
 
 # ----------------------------------------------------------------------
